@@ -323,6 +323,105 @@ def function_call(S, bounds):
     return obls, fns
 
 
+def m_insert_type_def(ex, st, callee, args, dest_ty, frame, depth):
+    """assignment::Target::insert_type_def(target, &mut state, type_def, constant): an oracle that names the new state
+    after everything it was given"""
+    tgt = ex.val_name(st, args[0]) if not isinstance(args[0], Ref) else args[0].cell.lstrip("*") + "".join(f".{p[1]}" for p in args[0].path)
+    c, p = ex.deref_target(st, args[1])
+    sname = _norm(ex.val_name(st, ex.read(st, c, p)))
+    td = _norm(ex.val_name(st, args[2]))
+    cv = _norm(ex.val_name(st, args[3]))
+    n = len(st.trace)
+    st.trace.append({"kind": "insert_type_def", "child": tgt, "state": sname, "type_def": td, "const": cv, "n": n})
+    ex.write(st, c, p, ex.fresh("compiler::state::TypeState", f"ins[{tgt}]({sname},{td},{cv})"))
+    return [(st, Outcome("ret", UNIT))]
+
+
+def assignment(S):
+    """`target = e` / `ok, err = e`: e is typed first; its constant is read in the state e *left*; the stores are
+    recorded on that state in the order the runtime performs them (ok, then err) and the node's final state is
+    the result of the last one."""
+    obls, fns = [], []
+    f = S.method("Expression", "Variant", "type_info")
+    ex = S.executor(oracles=ORACLES + [(re.compile(r"^assignment::Target::insert_type_def$"), m_insert_type_def)],
+                    opaque=OPAQUE + [r"^<value::value::Value as Clone>::clone$", r"DefaultValue>::default_value$", r"^value::value::Value::kind$|<impl value::value::Value>::kind$",
+                                     r"<impl From<.*> for TypeDef>::from$|^<TypeDef as From<.*>>::from$", r"Kind>::(bytes|or_null|or_bytes)$"])
+    ex.feas_timeout_ms = 200
+    paths = ex.run(f, [ex.fresh("&assignment::Variant<assignment::Target, U>", "self"), ex.fresh("&TypeState", "state0")])
+    fns += [(f.name, f.text_hash)] + list(ex.stats["fns_entered"].items())
+    vs = {k: n for n, k in S.types.enum_variants("assignment::Variant", "compiler::expression::assignment")}
+    seen = set()
+    for pi, p in enumerate(paths):
+        bad = []
+        d = p.st.simp(ex.discr_of("self*", "assignment::Variant"))
+        variant = vs.get(d.as_long(), "?") if z3.is_bv_value(d) else "?"
+        seen.add(variant)
+        tr = p.st.trace
+        final = None
+        if p.outcome.kind != "ret":
+            bad.append(f"{p.outcome.kind}: {p.outcome.msg}")
+        else:
+            final = _state_term(ex, p.st, ex.agg_field(p.st, p.outcome.value, 0, "compiler::state::TypeState"))
+        kinds = [e["kind"] for e in tr]
+        s0 = "state0*"
+        if variant == "Single":
+            want_kinds = ["apply_type_info", "resolve_constant", "insert_type_def"]
+        elif variant == "Infallible":
+            want_kinds = ["apply_type_info", "resolve_constant", "insert_type_def", "insert_type_def"]
+        else:
+            want_kinds = None
+            bad.append(f"unknown variant {variant}")
+        if want_kinds and kinds != want_kinds:
+            bad.append(f"steps {kinds}, expected {want_kinds}")
+        if not bad:
+            e0, e1 = tr[0], tr[1]
+            s1 = _after(e0["child"], s0)
+            if _norm(e0["state"]) != s0:
+                bad.append(f"expression typed in {e0['state']}, expected the incoming state")
+            if e1["child"] != e0["child"] or _norm(e1["state"]) != s1:
+                bad.append(f"constant of {e1['child']} read in {_norm(e1['state'])}, expected the expression's constant in {s1}")
+            rc = f"rc[{e0['child']}]"
+            cur = s1
+            stores = tr[2:]
+            targets = []
+            for k, e in enumerate(stores):
+                if e["state"] != cur:
+                    bad.append(f"store #{k} recorded on state {e['state']}, expected {cur}")
+                targets.append(e["child"])
+                cur = f"ins[{e['child']}]({e['state']},{e['type_def']},{e['const']})"
+            if rc not in stores[0]["const"]:
+                bad.append(f"first store records constant {stores[0]['const']}, expected the expression's ({rc})")
+            if variant == "Single" and f"typedef[{e0['child']}]" not in stores[0]["type_def"]:
+                bad.append(f"store records type {stores[0]['type_def']}, expected the expression's type")
+            if variant == "Infallible":
+                if not (targets[0].endswith(".0") and targets[1].endswith(".1")):
+                    bad.append(f"stores recorded for {targets}, expected ok (field 0) then err (field 1), the order the runtime stores them")
+                if "rc[" in stores[1]["const"]:
+                    bad.append("the err target is given the expression's constant")
+            if final is not None and final != cur:
+                bad.append(f"final state {final}, expected {cur}")
+        role = f"C01:AssignVariant::type_info[{variant}]:state-follows-the-runtime-stores"
+        o = Obl(role, {"C01", "C02", "C12"}, f"{role}#path{pi}", p, z3.BoolVal(not bad),
+                {"problems": bad[:3], "steps": [(e["kind"], e["child"], _norm(e["state"])[:80]) for e in tr], "final_state": final})
+        o.ex = ex
+        obls.append(o)
+    if not {"Single", "Infallible"} <= seen:
+        raise Unencodable(f"Variant::type_info: variants seen {seen} (vacuous)")
+    return obls, fns
+
+
+def assignment_battery():
+    T = {"outcome": "ok", "types_sound": True}
+    return [
+        ({"source": "x = 1\nx = (x = \"s\"; 2.5)\n.r = x\n", "event": {}}, T),
+        ({"source": "x = 2\nx = (x = 0; 4)\n.r = 10 / x\n", "event": {}}, {"outcome": "ok", "event_eq": {"r": {"Float": "0x4004000000000000"}}}),
+        ({"source": ".res, .res.error = 1 / .zero\n.after = true\n", "event": {"zero": 0}}, T),
+        ({"source": "ok, err = 1 / .zero\n.ok = ok\n.err = err\n", "event": {"zero": 0}}, T),
+        ({"source": "ok, err = 1 / .zero\n.ok = ok\n.err = err\n", "event": {"zero": 2}}, T),
+        ({"source": "y = 5\nx = y\ny = 0\n.r = 10 / x\n", "event": {}}, {"outcome": "ok", "event_eq": {"r": {"Float": "0x4000000000000000"}}}),
+    ]
+
+
 def closure_battery():
     """a closure body assigns to a variable of the enclosing scope"""
     return [
@@ -334,7 +433,7 @@ def closure_battery():
 
 def obligations(S, bounds=None):
     obls, fns = [], []
-    for g in (if_statement, wrappers, lambda S_: lists(S_, bounds or {"block": 3, "array": 2}), lambda S_: function_call(S_, bounds or {"block": 3, "array": 2})):
+    for g in (if_statement, wrappers, assignment, lambda S_: lists(S_, bounds or {"block": 3, "array": 2}), lambda S_: function_call(S_, bounds or {"block": 3, "array": 2})):
         o, f = g(S)
         obls += o
         fns += f
